@@ -55,7 +55,9 @@ def structure_case(draw, tier):
             # node handle (attribute or item assignment), or a copy taken after the first traversal was re-parented;
             # the case's parent table is the table after the edit
             "edit": draw(st.sampled_from([None, None, None, "node.pid", "item", "copy-then-node.pid"])),
-            "edit_sel": [draw(st.integers(0, 10 ** 6)), draw(st.integers(0, 10 ** 6))]}
+            "edit_sel": [draw(st.integers(0, 10 ** 6)), draw(st.integers(0, 10 ** 6))],
+            # raw (id, parent id) tables handed to swc_utils.traverse may list their rows in any order
+            "row_order": list(draw(st.permutations(list(range(n))))) if draw(st.integers(0, 2)) == 0 else None}
 
 
 def _tree_of(parents):
@@ -81,7 +83,7 @@ def _before_edit(parents, sel):
     return old, a, parents[a]
 
 
-def _run_traverse(parents, start, mode, entry, enter, leave, current=None, edit=None, edit_sel=None, decoy_cb=None):
+def _run_traverse(parents, start, mode, entry, enter, leave, current=None, edit=None, edit_sel=None, decoy_cb=None, row_order=None):
     from swcgeom.core.swc_utils import traverse
 
     kw = {}
@@ -92,6 +94,9 @@ def _run_traverse(parents, start, mode, entry, enter, leave, current=None, edit=
     n = len(parents)
     if entry == "swc_utils":
         topo = (np.arange(n, dtype=np.int32), np.array(parents, dtype=np.int32))
+        if row_order is not None:
+            order = np.array(row_order, dtype=np.int64)
+            topo = (topo[0][order], topo[1][order])
         return traverse(topo, root=start, **kw)
     tree = _tree_of(parents)
     prior = _before_edit(parents, edit_sel) if edit else None
@@ -202,7 +207,9 @@ def run_structure(case, ctx):
         edited[0] = True
 
     ret = _run_traverse(parents, start, mode, entry, enter, leave, current, edit=case.get("edit") if entry != "swc_utils" else None,
-                        edit_sel=case.get("edit_sel"), decoy_cb=decoy_run)
+                        edit_sel=case.get("edit_sel"), decoy_cb=decoy_run, row_order=case.get("row_order"))
+    if entry == "swc_utils" and case.get("row_order") is not None:
+        ctx.cls("raw-table-with-rows-in-any-order")
     if edited[0]:
         ctx.cls("tree-re-parented-in-place-after-a-first-traversal", "edit:" + case["edit"])
     ctx.check(not order_err, "exactly-once", lambda: "; ".join(order_err[:3]))
@@ -250,6 +257,24 @@ def _deep_parents(n, shape):
     if shape == "comb":  # long spine, then a star at the end
         m = n - 50
         return [-1] + list(range(m - 1)) + [m - 1] * 50
+    if shape == "caterpillar-leaves-numbered-last":  # spine 0..m-1, the leaf of spine node i is m + i (the spine is listed first)
+        m = n // 2
+        return [-1] + list(range(m - 1)) + list(range(n - m))[: n - m]
+    if shape in ("caterpillar-shuffled", "binary-ladder-shuffled"):
+        # a deep caterpillar / a ladder whose every spine node also carries a two-node twig, under a seeded renumbering that
+        # keeps the root at 0: at every spine node the continuation may be listed first, in the middle or last
+        base = _deep_parents(n, "caterpillar")
+        if shape == "binary-ladder-shuffled":
+            base = [-1]
+            for i in range(1, n):
+                k = i % 3
+                base.append(i - 3 if k == 0 and i >= 3 else (0 if k == 0 else i - k if k == 1 else i - 1))
+        rs = np.random.RandomState(n)
+        perm = [0] + [int(v) + 1 for v in rs.permutation(n - 1)]
+        out = [None] * n
+        for i, p in enumerate(base):
+            out[perm[i]] = -1 if p == -1 else perm[p]
+        return out
     raise ValueError(shape)
 
 
@@ -260,7 +285,8 @@ def deep_case(draw, tier):
         n = draw(st.integers(2500, 3500))
     else:
         n = draw(st.sampled_from([10_000, 12_345, 20_000] if tier == "quick" else [50_000, 100_000]))
-    return {"n": n, "shape": draw(st.sampled_from(["chain", "caterpillar", "comb"])),
+    return {"n": n, "shape": draw(st.sampled_from(["chain", "caterpillar", "comb", "caterpillar-leaves-numbered-last",
+                                                   "caterpillar-shuffled", "binary-ladder-shuffled"])),
             "entry": draw(st.sampled_from(ENTRIES)), "limit": limit,
             "start": draw(st.sampled_from([0, 0, 1, 2]))}
 
@@ -279,6 +305,8 @@ def run_deep(case, ctx):
     start = case["start"]
     if shape == "caterpillar" and start == 1:
         start = 2
+    if "shuffled" in shape or shape == "caterpillar-leaves-numbered-last":
+        start = 0 if start != 1 else [i for i, p in enumerate(parents) if p == 0][0]
     sub_n = len(models.descendants_or_self(parents, start))
     ctx.cls("deep:" + shape, "entry:" + entry, "limited-recursion" if case["limit"] else f"n>={10 ** (len(str(n)) - 1)}")
     ctx.nontrivial(True)
@@ -311,7 +339,8 @@ SUBCHECKS = [
                   "permuted": 100, "start-not-root": 200, "shape:chain": 20, "shape:star": 20,
                   "leave-callback-mutates-its-argument:append": 100, "leave-callback-mutates-its-argument:clear": 100,
                   "enter-returns:depth": 100, "enter-returns:falsy": 100, "callbacks-reused-from-another-tree": 100,
-                  "tree-re-parented-in-place-after-a-first-traversal": 300, "edit:item": 60, "edit:copy-then-node.pid": 60}),
-    Sub("deep", deep_case, run_deep, quick=24, thorough=96, shards_quick=4,
-        required={"limited-recursion": 4, "deep:chain": 2, "deep:caterpillar": 2}),
+                  "tree-re-parented-in-place-after-a-first-traversal": 300, "raw-table-with-rows-in-any-order": 150, "edit:item": 60, "edit:copy-then-node.pid": 60}),
+    Sub("deep", deep_case, run_deep, quick=48, thorough=96, shards_quick=4,
+        required={"limited-recursion": 8, "deep:chain": 2, "deep:caterpillar": 2, "deep:caterpillar-leaves-numbered-last": 2,
+                  "deep:caterpillar-shuffled": 2}),
 ]
